@@ -79,7 +79,7 @@ VARIANTS = [
     V("kv-setter-bypass", ["C03"], K, "        self.internal -= nodes\n        return self\n\n    def span", "        self._KnotVector__internal = tuple(x for x in self.internal if x not in nodes)\n        return self\n\n    def span", "FUNNEL", "KnotVector.remove", "payload rebound without the validating setter"),
     V("shift-commit-early", ["C03", "C18"], K, "        vector = tuple(knoti + value for knoti in self)\n        self.internal = ImmutableKnotVector(vector)\n        return self", "        self.internal = ImmutableKnotVector(tuple(self))\n        vector = tuple(knoti + value for knoti in self)\n        self.internal = ImmutableKnotVector(vector)\n        return self", "COMMIT-LAST", "KnotVector.shift", "computation after a first commit"),
     V("gen-skip-normalize", ["C18"], K, "        knotvector = GeneratorKnotVector.integer(degree, npts, cls)\n        knotvector.normalize()\n        return knotvector", "        knotvector = GeneratorKnotVector.integer(degree, npts, cls)\n        return knotvector", "NORMALIZED", "uniform", "uniform skips normalize"),
-    V("add-ignores-other-kv", ["C08"], C, "            curve = Curve(self.knotvector | other.knotvector)\n            ctrlpoints = np.array(matra) @ self.ctrlpoints\n            ctrlpoints = ctrlpoints + np.array(matrb) @ other.ctrlpoints", "            curve = Curve(self.knotvector | other.knotvector)\n            ctrlpoints = np.array(matra) @ self.ctrlpoints", "DEP-MAY", "__add__", "sum ignores the second operand's points"),
+    V("add-ignores-other-kv", ["C08"], C, "            ctrlpoints = np.array(matra, dtype=\"object\") @ self.ctrlpoints\n            ctrlpoints = ctrlpoints + np.array(matrb, dtype=\"object\") @ other.ctrlpoints", "            ctrlpoints = np.array(matra, dtype=\"object\") @ self.ctrlpoints", "DEP-MAY", "__add__", "sum ignores the second operand's points"),
     V("curve-shared-kv-shift", ["C15"], C, "        nodes = self.knotvector.knots\n        newnodes = times * nodes\n        newvector = self.knotvector + newnodes", "        nodes = self.knotvector.knots\n        newnodes = times * nodes\n        self.knotvector.insert(newnodes)\n        newvector = self.knotvector", "SHARED-KV", "degree_increase", "in-place insert on the shared KnotVector"),
     V("seed-wrong-weight", ["C10"], H, "        3: (Fraction(1, 6), Fraction(2, 3), Fraction(1, 6)),", "        3: (Fraction(1, 6), Fraction(3, 5), Fraction(1, 6)),", "SEED", "closed_newton", "literal Simpson weights wrong"),
     V("minpoint-left", ["C16"], C, "                        newpoint = newpoint + (line[j] * invweight) * point\n", "                        newpoint = newpoint + point * (line[j] * invweight)\n", "MIN-POINT", "BaseCurve.apply", "point * scalar"),
@@ -325,8 +325,8 @@ VARIANTS += [
     V("rev-F41", ["C05"], H, "        integrator = np.array(integrator, dtype=numbtype)\n", "        integrator = np.array(integrator)\n", "DTYPE-AGREE", "func2func", "integration weights without the accumulator's dtype"),
     V("rev-F42", ["C17", "C08"], H, "                mult = vector.mult(knot) + raised\n", "                mult = vector.mult(knot)\n", "UNION-DEGREE", "ImmutableKnotVector.__or__", "union multiplicities not raised by the degree difference"),
     V("twin-union-raise-inline", ["C17", "C08"], H, "                mult = vector.mult(knot) + raised\n", "                mult = vector.mult(knot) + (degree - vector.degree)\n", None, None, "degree difference added inline", twin=True),
-    V("rev-F43", ["C08"], C, "            ctrlpoints = ctrlpoints + np.array(matrb) @ other.ctrlpoints\n", "            ctrlpoints += np.array(matrb) @ other.ctrlpoints\n", "INPLACE-MIX", "__add__", "second contribution added in place"),
-    V("twin-add-one-expression", ["C08"], C, "            ctrlpoints = np.array(matra) @ self.ctrlpoints\n            ctrlpoints = ctrlpoints + np.array(matrb) @ other.ctrlpoints\n", "            ctrlpoints = np.array(matra) @ self.ctrlpoints + np.array(matrb) @ other.ctrlpoints\n", None, None, "sum written as one expression", twin=True),
+    V("rev-F43", ["C08"], C, "            ctrlpoints = ctrlpoints + np.array(matrb, dtype=\"object\") @ other.ctrlpoints\n", "            ctrlpoints += np.array(matrb, dtype=\"object\") @ other.ctrlpoints\n", "INPLACE-MIX", "__add__", "second contribution added in place"),
+    V("twin-add-one-expression", ["C08"], C, "            ctrlpoints = np.array(matra, dtype=\"object\") @ self.ctrlpoints\n            ctrlpoints = ctrlpoints + np.array(matrb, dtype=\"object\") @ other.ctrlpoints\n", "            ctrlpoints = np.array(matra, dtype=\"object\") @ self.ctrlpoints + np.array(matrb, dtype=\"object\") @ other.ctrlpoints\n", None, None, "sum written as one expression", twin=True),
     V("rev-F44", ["C03", "C04"], H, "        nodes = tuple(nodes)  # A one-pass iterable is walked only here\n        newvector = sorted(list(self) + list(nodes))\n", "        newvector = sorted(list(self) + list(nodes))\n", "WALK-ONCE", "ImmutableKnotVector.__add__", "nodes walked twice without being materialised"),
     V("twin-add-nodes-list", ["C03", "C04"], H, "        nodes = tuple(nodes)  # A one-pass iterable is walked only here\n        newvector = sorted(list(self) + list(nodes))\n", "        nodes = list(nodes)\n        newvector = sorted(list(self) + nodes)\n", None, None, "materialised as a list", twin=True),
     V("rev-F45", ["C15"], H, "    manyvalues = list(manyvalues)\n    manynodes = list(manynodes)\n", "    manyvalues = tuple(manyvalues)\n", "TUPLE-MUTATE", "find_roots", "samples kept as tuples and popped"),
